@@ -609,7 +609,53 @@ def r_state_closure(ctx, *entries):
     r_zero(ctx, clo)
     r_dtype(ctx, clo)
     r_negslice(ctx, clo)
+    r_fancy(ctx, clo)
     return clo
+
+
+def r_fancy(ctx, fqs):
+    """`a[idx] += v` with an index ARRAY applies a repeated position once (the last value wins): it does not accumulate"""
+    run = ctx.run
+    run.rule('R-FANCY', "an augmented assignment through an index array whose positions repeat by construction (the inverse indices of "
+                        "numpy.unique, the members of all pairs of a combination) is not an accumulation: numpy evaluates a[idx] + v "
+                        "once and stores it back, so every repeated position receives a single contribution (numpy.add.at / bincount "
+                        "accumulate)")
+    from ..ctx import _as_load
+    n = 0
+    for fq in sorted(fqs):
+        f = ctx.p.func(fq)
+        if f is None:
+            continue
+        for nd in f.nodes:
+            if not isinstance(nd.stmt, ast.AugAssign) or not isinstance(nd.stmt.target, ast.Subscript):
+                continue
+            t = f.term(_as_load(nd.stmt.target), nd)
+            if t[0] != 'sub':
+                continue
+            idx = t[2]
+            why = None
+
+            def outside_iteration(t_):
+                """sub-terms of t_ that are not inside the element of an iteration (a loop element is one position, not an array)"""
+                yield t_
+                if t_[0] in ('iter', 'idx', 'c', 'v', 'g', 'b'):
+                    return
+                from ..core import children
+                for c_ in children(t_):
+                    yield from outside_iteration(c_)
+            for x in outside_iteration(idx):
+                if x[0] in ('item', 'sub') and (x[2] == 1 or x[2] == ('c', 1)) and is_call(x[1], 'numpy.unique') and \
+                        dict(x[1][3]).get('return_inverse') == ('c', True):
+                    why = 'the inverse indices of numpy.unique (one entry per original element, equal for equal elements)'
+                elif is_call(x, 'itertools.combinations', 'itertools.permutations', 'itertools.combinations_with_replacement'):
+                    why = 'the members of all pairs (every member occurs in several pairs)'
+            if why:
+                n += 1
+                run.refute('R-FANCY', f, 'repeated-positions-accumulate', nd.lineno,
+                           '`%s` adds through positions that repeat: %s; numpy applies each repeated position once, so contributions '
+                           'that should add up are lost' % (ast.unparse(nd.stmt)[:70], why),
+                           inputs='inputs in which two contributions fall on the same position (two walks reaching one vertex)')
+    run.notes.append('R-FANCY: %d augmented assignments through repeating index arrays' % n)
 
 
 _PARAM_MIN = {'observed_length': 1, 'vt_length': 1, 'dna_length': 0, 'bit_length': 0, 'max_homopolymer_runs': 1}
